@@ -74,6 +74,22 @@ pub fn thrift_text_docs() -> Vec<(&'static str, Vec<(String, String)>)> {
                 f("more.thrift", "namespace rs demo.more\ninclude \"shared.thrift\"\nstruct Extra { 1: shared.Meta meta }\n"),
             ],
         ),
+        (
+            "one file included over two routes, one of them through a subdirectory and '..'",
+            vec![
+                f("main.thrift", "namespace rs demo.dia\ninclude \"common.thrift\"\ninclude \"sub/mid.thrift\"\ninclude \"sub/deep/low.thrift\"\nstruct Top { 1: common.Shared s, 2: mid.Mid m, 3: low.Low l }\nservice Dia { common.Shared get(1: mid.Mid m) }\n"),
+                f("common.thrift", "namespace rs demo.common\nstruct Shared { 1: i32 v }\nenum Kind { A = 1 }\nconst i32 LIMIT = 3\n"),
+                f("sub/mid.thrift", "namespace rs demo.mid\ninclude \"../common.thrift\"\nstruct Mid { 1: common.Shared s, 2: common.Kind k }\n"),
+                f("sub/deep/low.thrift", "namespace rs demo.low\ninclude \"../../common.thrift\"\ninclude \"../mid.thrift\"\nstruct Low { 1: common.Shared s, 2: mid.Mid m, 3: i32 n = common.LIMIT }\n"),
+            ],
+        ),
+        (
+            "doubles inside lists in set-element and map-key position",
+            vec![f(
+                "keys.thrift",
+                "namespace rs demo.keys\ntypedef list<double> Row\ntypedef set<list<double>> Rows\nstruct Keys { 1: set<list<double>> a, 2: map<list<double>, string> b, 3: map<list<list<double>>, i32> c, 4: list<Row> d, 5: optional Rows e, 6: map<list<double>, list<double>> f, 7: list<set<list<double>>> g }\nunion KeyPick { 1: set<list<double>> a, 2: map<list<double>, double> b }\nservice KeySvc { set<list<double>> get(1: map<list<double>, i32> m) }\n",
+            )],
+        ),
     ]
 }
 
